@@ -137,8 +137,9 @@ package oauth2
 //@   requires c != nil && request != nil && !stored[request] && !shared[request] && !shared[request.GetSession()]
 //@   modifies acc_exists, ref_active, faults, validated_n, tx_escaped
 //@   ensures [C06.lookup-then-validate] err == nil ==> validated_n[code] > old(validated_n[code])
-// the hint of the replay refusal is one of four constant texts: what a failing revocation said goes to the debug field only
-//@   assert @call(WithHint)#4 [C20.replay-hint-carries-no-internal-error-text] $arg1 == "The authorization code has already been used." || $arg1 == "The authorization code has already been used." + " Additionally, an error occurred during processing the access token revocation." || $arg1 == "The authorization code has already been used." + " Additionally, an error occurred during processing the refresh token revocation." || $arg1 == "The authorization code has already been used." + " Additionally, an error occurred during processing the access token revocation." + " Additionally, an error occurred during processing the refresh token revocation."
+// the hint of the replay refusal is built from literals of the program text only: what a failing revocation said goes to the debug
+// field (consttext: literals and their concatenations; rewording the message does not matter)
+//@   assert @call(WithHint)#4 [C20.replay-hint-carries-no-internal-error-text] consttext($arg1)
 //@   ensures [C01.replay-refused] used ==> err != nil
 //@   ensures [C01.replay-error-class] used && c.CanHandleTokenEndpointRequest(ctx, request) && old(request.GetClient().GetGrantTypes()).Has("authorization_code") ==> ekind(err) == "invalid_grant" || ekind(err) == "server_error"
 //@   ensures [C01.replay-invalid-grant-unless-fault] used && c.CanHandleTokenEndpointRequest(ctx, request) && old(request.GetClient().GetGrantTypes()).Has("authorization_code") && faults == old(faults) && old(code_req[sig]) != nil ==> ekind(err) == "invalid_grant"
@@ -272,10 +273,15 @@ package oauth2
 //@   ensures [C12.refresh-carries-only-granted] err == nil ==> (forall x string :: insl(request.GetGrantedScopes(), x) ==> insl(old(request.GetGrantedScopes()), x) || insl(orig.GetGrantedScopes(), x)) && (forall x string :: insl(request.GetGrantedAudience(), x) ==> insl(old(request.GetGrantedAudience()), x) || insl(orig.GetGrantedAudience(), x))
 //@   ensures [C05.refresh-scope-needed] err == nil ==> len(c.Config.GetRefreshTokenScopes(ctx)) == 0 || orig.GetGrantedScopes().HasOneOf(c.Config.GetRefreshTokenScopes(ctx))
 //@   invariant loop#1 [C05.scopes-still-allowed] $i <= len(originalRequest.GetGrantedScopes()) && originalRequest != request && originalRequest.GetGrantedScopes() == pre(originalRequest.GetGrantedScopes())
+//@   invariant loop#1 [C12.refresh-confined-to-registration] $i <= len(originalRequest.GetGrantedScopes()) && originalRequest != request && originalRequest.GetGrantedScopes() == pre(originalRequest.GetGrantedScopes())
 //@   invariant loop#1 [C05.scopes-still-allowed] forall j int :: 0 <= j && j < $i ==> call(c.Config.GetScopeStrategy(ctx), request.GetClient().GetScopes(), originalRequest.GetGrantedScopes()[j])
+//@   invariant loop#1 [C12.refresh-confined-to-registration] forall j int :: 0 <= j && j < $i ==> call(c.Config.GetScopeStrategy(ctx), request.GetClient().GetScopes(), originalRequest.GetGrantedScopes()[j])
 //@   invariant loop#1 [C05.granted-from-original-only] forall x string :: insl(request.GetGrantedScopes(), x) ==> insl(old(request.GetGrantedScopes()), x) || insl(originalRequest.GetGrantedScopes(), x)
+//@   invariant loop#1 [C12.refresh-carries-only-granted] forall x string :: insl(request.GetGrantedScopes(), x) ==> insl(old(request.GetGrantedScopes()), x) || insl(originalRequest.GetGrantedScopes(), x)
 //@   invariant loop#2 [C05.granted-from-original-only] $i <= len(originalRequest.GetGrantedAudience()) && originalRequest != request && originalRequest.GetGrantedAudience() == pre(originalRequest.GetGrantedAudience())
+//@   invariant loop#2 [C12.refresh-carries-only-granted] $i <= len(originalRequest.GetGrantedAudience()) && originalRequest != request && originalRequest.GetGrantedAudience() == pre(originalRequest.GetGrantedAudience())
 //@   invariant loop#2 [C05.granted-from-original-only] (forall x string :: insl(request.GetGrantedAudience(), x) ==> insl(old(request.GetGrantedAudience()), x) || insl(originalRequest.GetGrantedAudience(), x))
+//@   invariant loop#2 [C12.refresh-carries-only-granted] (forall x string :: insl(request.GetGrantedAudience(), x) ==> insl(old(request.GetGrantedAudience()), x) || insl(originalRequest.GetGrantedAudience(), x))
 
 //@ func (*RefreshTokenGrantHandler).PopulateTokenEndpointResponse
 //@   modifies anyheap
